@@ -110,6 +110,10 @@ def longest_prefix(run, bound):
     return 0
 
 
+BYSTANDERS = ["{}", "[]", "[{}]", "null", '"net"', "true", "[1, 2]", "{qq1: 1}", "{qq1: {}, qq2: 2}", "[{qq1: 1}, {qq2: {}}]", "{qq1: {qq2: {}}}",
+              "{qq1: []}", "@\"P1D\"", "[[]]"]
+
+
 class T:
     """template builder: produces text, reference AST and labels"""
 
@@ -152,10 +156,10 @@ class T:
                 return toks
         return ["zz", "yy", "vv"]
 
-    def binop(self, env=frozenset()):
+    def binop(self, env=frozenset(), ops=("+", "-", "*", "/", "<", "<=", ">", ">=", "=", "!=")):
         s = self.src
         a, b = self.pick(), self.pick()
-        op = s.choice(["+", "-", "*", "/", "<", "<=", ">", ">=", "=", "!="])
+        op = s.choice(list(ops))
         ta, na = self.name(a)
         tb, nb = self.name(b)
         sp1, sp2 = " " * s.weighted([(3, 1), (3, 0), (1, 2)]), " " * s.weighted([(3, 1), (3, 0), (1, 2)])
@@ -200,6 +204,14 @@ def gen_case(src):
                          (2, "between"), (2, "in"), (2, "filter-index"), (2, "filter-ctx"), (3, "path-head"), (1, "path-chain"), (2, "call"), (5, "glue-probe")])
     tb = T(src, words, names, values)
     extra_bind = []
+    # bystanders: further bound names the expression never mentions, holding values of other shapes (empty / nested contexts, lists of
+    # contexts, null, text). They are bound names like any other (the glue oracle sees them); their inner keys are unique words.
+    if src.bool(0.35):
+        for _ in range(src.weighted([(3, 1), (2, 2), (1, 3)])):
+            bn = tb.local()
+            tb.bound.add(nf(bn))
+            extra_bind.append([nf(bn), {"feel": src.choice(BYSTANDERS)}])
+            tb.labels.append("bystander")
     if kind == "alone":
         t = src.choice(names)
         text, node = tb.name(t)
@@ -236,10 +248,7 @@ def gen_case(src):
     elif kind == "paren":
         text, node = tb.paren_binop()
     elif kind == "if":
-        c, cn = tb.binop()
-        while cn[0] != "cmp":
-            tb.labels, tb.partial = [], False
-            c, cn = tb.binop()
+        c, cn = tb.binop(ops=("<", "<=", ">", ">=", "=", "!="))     # (no retry loop: a shrunk choice sequence must terminate)
         (t1, n1), (t2, n2) = tb.name(tb.pick()), tb.name(tb.pick())
         text, node = "if %s then %s else %s" % (c, t1, t2), ["if", cn, n1, n2]
         tb.labels.append("if")
@@ -440,7 +449,7 @@ def setup(ctx):
 
 
 def run(ctx):
-    ctx.forall(ctx.p, ctx.scale(160000, 3000000))
+    ctx.forall(ctx.p, ctx.scale(160000, 15000000))
 
 
 if __name__ == "__main__":
